@@ -1,7 +1,7 @@
 """C14 — SparseMerkleTree is a fixed-depth map whose root and branches always verify."""
 from trie.smt import SparseMerkleTree, calc_root
 
-from ..core import HarnessError, Violation, hx, unhx
+from ..core import HarnessError, Violation, deep, hx, unhx
 from ..models.smtref import RefSMT
 from ..simdb import SimDB
 
@@ -248,7 +248,7 @@ def make_cfg(rng):
 
 
 def make_keys(rng, ks, n=None):
-    n = n or rng.choice([2, 3, 4, 6, 8, 12])
+    n = n or rng.choice(deep([2, 3, 4, 6, 8, 12], [3, 4, 6, 8, 12, 20, 32]))
     base = bytes(rng.randrange(256) for _ in range(ks)) if rng.random() < 0.7 else rng.choice([bytes(ks), b"\xff" * ks])
     keys = [base]
     D = ks * 8
@@ -256,10 +256,16 @@ def make_keys(rng, ks, n=None):
     while len(keys) < n and tries < 100:
         tries += 1
         r = rng.random()
-        if r < 0.7:
+        if r < 0.5:
             src = int.from_bytes(rng.choice(keys), "big")
             pos = rng.choice([0, 1, D // 2, D - 2, D - 1, rng.randrange(D)])
             k = (src ^ (1 << (D - 1 - pos))).to_bytes(ks, "big")
+        elif r < 0.7:
+            # every bit from a position on is flipped: 0111.. against 1000.., the
+            # all-zero key against the all-one key
+            src = int.from_bytes(rng.choice(keys), "big")
+            pos = rng.choice([0, 0, 1, 7, 8, D // 2, rng.randrange(D)])
+            k = (src ^ ((1 << (D - pos)) - 1)).to_bytes(ks, "big")
         else:
             k = bytes(rng.randrange(256) for _ in range(ks))
         if k not in keys:
@@ -298,7 +304,7 @@ def generate(rng):
     cfg = make_cfg(rng)
     keys = make_keys(rng, cfg["ks"])
     vals = make_values(rng, unhx(cfg["default"]))
-    n = rng.choice([6, 10, 16, 25, 40]) if cfg["ks"] <= 8 else rng.choice([6, 10, 16])
+    n = rng.choice(deep([6, 10, 16, 25, 40], [10, 20, 40, 80])) if cfg["ks"] <= 8 else rng.choice(deep([6, 10, 16], [10, 20, 30]))
     cmds = gen_history(rng, keys, vals, n)
     cmds.append({"op": "clear_all"})
     return {"prop": ID, "cfg": cfg, "cmds": cmds}
